@@ -106,11 +106,16 @@ func runC16(p *core.Program, r *core.Report) {
 		// … and that a class flag contributes exactly the characters of its class string,
 		// an exclusion removes exactly those (= C03 R3.1-R3.3 re-run on the alphabet builder)
 		r.Borrow("R16.1", func() { checkAlphabetBuilder(p, r) })
+		// the shipped lists are handed to NewWordList by every user (the CLI included): they stay
+		// identical to their data files only if the constructor neither writes nor keeps its argument (= C10 R10.1)
+		r.Borrow("R16.5", func() { checkCallerSliceUntouched(p, r) })
 		// "uniformly, with the matching entropy": the presets are character recipes, so the draw
 		// routine and the generation shape carry over (= C01 R1.x and C02 R2.2-R2.5 re-run)
 		r.Borrow("R16.3", func() {
 			checkDrawRoutines(p, r, "R1.1", "R1.2", "R1.3")
-			if g, _ := resolveCharGen(p); g != nil {
+			if g, why := resolveCharGen(p); g == nil {
+				r.Unrecognised("R2.2", "(spg.CharRecipe).Generate", "generation shape", "", why)
+			} else {
 				checkDrawShape(p, r, g, "R2.2", "R2.3")
 				checkWholeCandidateRejection(p, r, g, "R2.4")
 				checkFilterAllOf(p, r, g, "R2.5")
@@ -200,18 +205,8 @@ func runC16(p *core.Program, r *core.Report) {
 			},
 		})
 	}
-	if fn := p.Func("NewWLRecipe"); fn == nil {
-		r.Unrecognised("R16.2", "NewWLRecipe", "constructor", "", "not found")
-	} else {
-		checkCtor(p, r, fn, "WLRecipe", map[string]func(ssa.Value) (bool, string){
-			"Length": func(v ssa.Value) (bool, string) { return v == paramOrNil(fn, 0), "must be the length parameter" },
-			"list":   func(v ssa.Value) (bool, string) { return v == paramOrNil(fn, 1), "must be the word-list parameter" },
-			"Capitalize": func(v ssa.Value) (bool, string) {
-				s, ok := core.ConstString(v)
-				return ok && s == "none", "must be CSNone (\"none\")"
-			},
-		})
-	}
+	checkWLRecipeCtor(p, r)
+
 	capDoc := map[string]string{"CSNone": "none", "CSFirst": "first", "CSAll": "all", "CSRandom": "random", "CSOne": "one"}
 	caps := core.ConstsOfType(p.LibPkg.Types, "CapScheme")
 	for n, doc := range capDoc {
@@ -673,4 +668,39 @@ func sfFactoryForwards(p *core.Program, f *ssa.Function) (bool, string) {
 		return true, ""
 	}
 	return check(clo, -1, 0)
+}
+
+// checkWLRecipeCtor: R16.2 for NewWLRecipe (also run by C05: a default separator
+// function installed by the constructor would change what separates the words).
+func checkWLRecipeCtor(p *core.Program, r *core.Report) {
+	if fn := p.Func("NewWLRecipe"); fn == nil {
+		r.Unrecognised("R16.2", "NewWLRecipe", "constructor", "", "not found")
+	} else {
+		checkCtor(p, r, fn, "WLRecipe", map[string]func(ssa.Value) (bool, string){
+			"Length": func(v ssa.Value) (bool, string) { return v == paramOrNil(fn, 0), "must be the length parameter" },
+			"list":   func(v ssa.Value) (bool, string) { return v == paramOrNil(fn, 1), "must be the word-list parameter" },
+			"Capitalize": func(v ssa.Value) (bool, string) {
+				s, ok := core.ConstString(v)
+				return ok && s == "none", "must be CSNone (\"none\")"
+			},
+		})
+	}}
+
+// checkSeparatorFactories: the factory part of R16.3 on its own (also run by C06):
+// every exported function of the library that takes a CharRecipe and returns a
+// separator function forwards Generate().String() and the Entropy of that recipe.
+func checkSeparatorFactories(p *core.Program, r *core.Report) {
+	n := 0
+	for _, f := range p.LibFuncs() {
+		if f.Parent() != nil || f.Signature.Recv() != nil || f.Signature.Params().Len() != 1 || f.Signature.Results().Len() != 1 {
+			continue
+		}
+		if core.NamedOf(f.Signature.Params().At(0).Type()) != core.ModulePath+".CharRecipe" || core.NamedOf(f.Signature.Results().At(0).Type()) != core.ModulePath+".SFFunction" {
+			continue
+		}
+		n++
+		ok, why := sfFactoryForwards(p, f)
+		r.Check(ok, "R16.3", core.FuncName(f), "factory result forwards Generate().String() and Entropy of the recipe argument", p.Pos(f.Pos()), why)
+	}
+	r.Floor("R16.3", "separator factories", n, 1)
 }
